@@ -2,7 +2,7 @@
 """Packages confirmed mutants from /tmp/mut/<ID>-out/<x>/ into /verif/seeded/<ID>-<x>/ using /tmp/mut/results.txt."""
 import json, os, re, shutil, sys
 ROOT = sys.argv[1] if len(sys.argv) > 1 else '/tmp/mut'
-SUFFIX = dict(a='a', b='b') if ROOT == '/tmp/mut' else dict(a='e', b='f') if ROOT == '/tmp/mut3' else dict(a='g', b='h') if ROOT == '/tmp/mut4' else dict(a='i', b='j') if ROOT in ('/tmp/mut5', '/tmp/mut6') else dict(a='c', b='d')
+SUFFIX = dict(a='a', b='b') if ROOT == '/tmp/mut' else dict(a='k') if ROOT == '/tmp/mut7' else dict(a='e', b='f') if ROOT == '/tmp/mut3' else dict(a='g', b='h') if ROOT == '/tmp/mut4' else dict(a='i', b='j') if ROOT in ('/tmp/mut5', '/tmp/mut6') else dict(a='c', b='d')
 res = open(ROOT + '/results.txt').read().split('== ')[1:]
 SEEN = set()
 for block in res:
